@@ -155,7 +155,7 @@ impl<SinkItem, Item, S, R> STransport<SinkItem, Item, S, R> {
     pub fn set_ready(&self, b: bool) {
         let mut i = self.0.borrow_mut();
         i.ready = b;
-        if b {
+        if b && (i.cap == 0 || i.buffered < i.cap) {
             if let Some(w) = i.w_ready.take() {
                 w.wake();
             }
@@ -197,8 +197,10 @@ impl<SinkItem, Item, S, R> STransport<SinkItem, Item, S, R> {
     pub fn drain(&self, k: usize) {
         let mut i = self.0.borrow_mut();
         i.buffered = i.buffered.saturating_sub(k);
-        if let Some(w) = i.w_ready.take() {
-            w.wake();
+        if i.ready && (i.cap == 0 || i.buffered < i.cap) {
+            if let Some(w) = i.w_ready.take() {
+                w.wake();
+            }
         }
     }
 
@@ -281,8 +283,10 @@ impl<SinkItem, Item, S, R> Sink<SinkItem> for STransport<SinkItem, Item, S, R> {
         if i.flushok {
             if i.coupled {
                 i.buffered = 0;
-                if let Some(w) = i.w_ready.take() {
-                    w.wake();
+                if i.ready {
+                    if let Some(w) = i.w_ready.take() {
+                        w.wake();
+                    }
                 }
             }
             i.log.push(Call::Flush(TRes::Ok));
